@@ -1,16 +1,186 @@
 (** C07 — recorded client histories are faithful and survive the Jepsen log round trip.
-    Property theorems only (interim: C07_accepts_linearizable is being added). *)
-From Coq Require Import Sorted.
-From Drummer.Model Require Import Base Register Jepsen Recorder.
-From Drummer.Proofs Require Import JepsenProofs RecorderProofs.
+    Property theorems only.
 
+    Models (theories/): [Recorder] — small-step system of the scheduling goroutine of
+    lcm.Coordinator and one client goroutine per process (lcm/manager.go, lcm/process.go), any
+    number of processes, arbitrary interleaving; [Jepsen] — toJepsenLogEntry / SaveAsJepsenLog as
+    a function to bytes and parseJepsenLog (lcm/porcupine/etcd.go) as a function from bytes;
+    [RecorderAtomic] — the recorder composed with an atomic register service whose error replies
+    say nothing (the operation may have taken effect, and a failed write may land at any later
+    time); [Register]/[WGL] — the checker of C06.  Tied to the Go code by harness/py/c07.py.
+
+    Not modelled (testing only): goroutine preemption inside the atomic steps listed in
+    Recorder.v, Go's memory model for the two flags (taken to be sequentially consistent), gRPC,
+    timers (mainLoop), bufio's 4096 byte line limit. *)
+From Coq Require Import ZArith Sorted Permutation.
+From Drummer.Model Require Import Base Register WGL Jepsen Recorder RecorderAtomic.
+From Drummer.Proofs Require Import JepsenProofs RecorderProofs AtomicProofs.
+
+(** ** 1. The recorded history is a well-formed, faithful account (every interleaving, every
+    number of processes)
+
+    [obs_ok]: the sequence of observations (history appends, rpc starts, rpc returns) is accepted
+    by the monitor of Recorder.v: per process  (invoke; rpc start; rpc return ok; completed)*
+    optionally followed by (invoke; rpc start; rpc return error; failed) and then nothing; the
+    completion carries the invoked value (writes) / the value the rpc returned (reads); the values
+    of write invocations strictly increase.  [wf_events]: the same for the history alone. *)
 Theorem C07_wellformed : forall n ls s, run (init n) ls = Some s ->
   obs_ok (observations s) = true /\ wf_events (events s) = true /\ events_of (observations s) = events s.
 Proof. exact wellformed. Qed.
 Print Assumptions C07_wellformed.
 
+(** what [wf_events] says, declaratively: at most one outstanding operation per process ... *)
+Theorem C07_one_outstanding : forall es es1 es2 p, wf_events es = true -> es = es1 ++ es2 ->
+  (n_done p es1 <= n_invoked p es1 <= n_done p es1 + 1)%nat.
+Proof. exact wf_one_outstanding. Qed.
+Print Assumptions C07_one_outstanding.
+
+(** ... written values strictly increase, hence are unique ... *)
+Theorem C07_written_increasing : forall es, wf_events es = true -> StronglySorted N.lt (written es).
+Proof. exact wf_written_sorted. Qed.
+Print Assumptions C07_written_increasing.
+
+Theorem C07_written_unique : forall es, wf_events es = true -> NoDup (written es).
+Proof. exact wf_written_unique. Qed.
+Print Assumptions C07_written_unique.
+
+(** ... and a process whose operation failed records nothing any more *)
+Theorem C07_nothing_after_failure : forall es es1 e es2, wf_events es = true ->
+  es = es1 ++ e :: es2 -> e_res e = RFailed -> Forall (fun e' => e_id e' <> e_id e) es2.
+Proof. exact wf_nothing_after_failure. Qed.
+Print Assumptions C07_nothing_after_failure.
+
+(** ** 2. The log round trip, for EVERY event list whose numbers fit Go's int — in particular
+    every process id up to MaxInt64 — well formed or not.
+
+    [expected_log es]: an invocation opens operation number 0, 1, 2, ...; a completion closes the
+    pending operation of its process; a failed read closes it with unknown outcome; a failed
+    write closes nothing; what is open at the end is closed there with unknown outcome
+    ([parse_log]/[expected_log]: in ascending order; [parse_allowed]/[history_allowed]: in any
+    order, as Go's map iteration may produce). *)
 Theorem C07_roundtrip : forall es, Forall (fun e => printable e = true) es ->
   parse_log (format_log es) = expected_log es /\
   (forall h, parse_allowed (format_log es) h <-> history_allowed es h).
-Proof. intros es H. split; [exact (roundtrip_log es H)|exact (roundtrip_allowed es H)]. Qed.
+Proof. exact roundtrip. Qed.
 Print Assumptions C07_roundtrip.
+
+(** for a well-formed event list that result is a complete history — every operation has exactly
+    one call and exactly one later return, the failed writes and whatever was in flight closed at
+    the end — i.e. exactly what the checker (C06) is specified for *)
+Theorem C07_roundtrip_complete : forall es, wf_events es = true ->
+  forall h, history_allowed es h -> wf h.
+Proof. exact wf_events_complete. Qed.
+Print Assumptions C07_roundtrip_complete.
+
+(** ** 3. A run against a linearizable (atomic) register is always accepted by the checker:
+    any number of processes up to 2^63, fewer than 2^63 writes, every interleaving, failures and
+    late effects included; whatever order Go's map iteration closes the open operations in. *)
+Theorem C07_accepts_linearizable : forall n ls a, arun (ainit n) ls = Some a ->
+  n <= max_int + 1 -> value (a_s a) <= max_int + 1 ->
+  forall h, parse_allowed (format_log (events (a_s a))) h -> wf h /\ linearizable h /\ check h = true.
+Proof. exact atomic_run_accepted. Qed.
+Print Assumptions C07_accepts_linearizable.
+
+(** the same without the text: the recorded events themselves describe a linearizable history *)
+Theorem C07_recorded_linearizable : forall n ls a, arun (ainit n) ls = Some a -> value (a_s a) <= nilv ->
+  forall h, history_allowed (events (a_s a)) h -> wf h /\ linearizable h /\ check h = true.
+Proof. exact atomic_linearizable. Qed.
+Print Assumptions C07_recorded_linearizable.
+
+(** the recorder part of such a run is a run of the recorder (so part 1 applies to it) *)
+Theorem C07_atomic_refines : forall n ls a, arun (ainit n) ls = Some a -> reachable n (a_s a).
+Proof. exact arun_reachable. Qed.
+Print Assumptions C07_atomic_refines.
+
+(** ---- non-vacuity ---- *)
+
+Definition opw (p : N) (r : rpcres) : list label :=
+  [LPick p true; LRecInvoke; LSetBusy; LSpawn; LRpcStart p; LRpcReturn p r].
+Definition opr (p : N) (r : rpcres) : list label :=
+  [LPick p false; LRecInvoke; LSetBusy; LSpawn; LRpcStart p; LRpcReturn p r].
+Definition fin_ok (p : N) : list label := [LRecDone p; LSetIdle p].
+Definition fin_err (p : N) : list label := [LSetStopped p; LRecDone p; LSetIdle p].
+
+(* two processes, interleaved; process 1500 fails *)
+Definition ex_labels : list label :=
+  [LPick 0 true; LRecInvoke; LSetBusy; LSpawn; LPick 1500 false; LRecInvoke; LRpcStart 0; LSetBusy; LSpawn;
+   LRpcStart 1500; LRpcReturn 1500 RErr; LRpcReturn 0 (ROk 0); LSetStopped 1500; LRecDone 0; LRecDone 1500;
+   LSetIdle 0; LSetIdle 1500] ++ opr 0 (ROk 1) ++ fin_ok 0.
+
+Definition ex_events : list Jepsen.event :=
+  [mkEvent TWrite RInvoked 0 1; mkEvent TRead RInvoked 1500 0; mkEvent TWrite RCompleted 0 1;
+   mkEvent TRead RFailed 1500 0; mkEvent TRead RInvoked 0 0; mkEvent TRead RCompleted 0 1].
+
+Example ex_run : option_map events (run (init 2000) ex_labels) = Some ex_events.
+Proof. vm_compute. reflexivity. Qed.
+
+(* a stopped process cannot be picked again; a busy one neither *)
+Example ex_no_pick_after_failure :
+  run (init 2000) (ex_labels ++ [LPick 1500 false]) = None /\
+  run (init 2000) [LPick 0 true; LRecInvoke; LSetBusy; LSpawn; LPick 0 false] = None.
+Proof. vm_compute. split; reflexivity. Qed.
+
+Example ex_wf : wf_events ex_events = true /\ written ex_events = [1].
+Proof. vm_compute. split; reflexivity. Qed.
+
+(* not well formed: two outstanding operations of one process; a value written twice *)
+Example ex_not_wf :
+  wf_events [mkEvent TRead RInvoked 3 0; mkEvent TRead RInvoked 3 0] = false /\
+  wf_events [mkEvent TWrite RInvoked 3 5; mkEvent TWrite RInvoked 4 5] = false.
+Proof. vm_compute. split; reflexivity. Qed.
+
+(* round trip with 4-digit and 19-digit process ids *)
+Definition ex_wide : list Jepsen.event :=
+  [mkEvent TRead RInvoked 0 0; mkEvent TWrite RInvoked 1500 7; mkEvent TRead RCompleted 0 nilv;
+   mkEvent TWrite RFailed 1500 0; mkEvent TWrite RInvoked max_int 8; mkEvent TWrite RCompleted max_int 8].
+
+Example ex_wide_printable : Forall (fun e => printable e = true) ex_wide.
+Proof. repeat constructor. Qed.
+
+Example ex_wide_roundtrip :
+  parse_log (format_log ex_wide) =
+  [Call 0 Read; Call 1 (Write 7); Ret 0 (mkOut false false 0 false); Call 2 (Write 8);
+   Ret 2 (mkOut false false 0 false); Ret 1 (mkOut false false 0 true)].
+Proof. vm_compute. reflexivity. Qed.
+
+(* the line format of the tree as found (%-4d directly followed by the keyword) loses every event
+   of a process with an id >= 1000; the repaired format does not *)
+Example ex_old_format_refuted :
+  parse_log (format_log_old [mkEvent TWrite RInvoked 1000 1; mkEvent TWrite RCompleted 1000 1]) = [] /\
+  parse_log (format_log [mkEvent TWrite RInvoked 1000 1; mkEvent TWrite RCompleted 1000 1]) =
+    [Call 0 (Write 1); Ret 0 (mkOut false false 0 false)].
+Proof. vm_compute. split; reflexivity. Qed.
+
+(* a run against the atomic register: the write of process 1000 times out before it took effect,
+   process 0 reads nil, the write lands late, process 0 reads 1 *)
+Definition al (ls : list label) : list alabel := map AL ls.
+Definition ex_alabels : list alabel :=
+  al (opw 1000 RErr) ++ al (fin_err 1000) ++
+  al [LPick 0 false; LRecInvoke; LSetBusy; LSpawn; LRpcStart 0] ++ [AEffect 0] ++ al [LRpcReturn 0 (ROk nilv)] ++ al (fin_ok 0) ++
+  [ALate 1000] ++
+  al [LPick 0 false; LRecInvoke; LSetBusy; LSpawn; LRpcStart 0] ++ [AEffect 0] ++ al [LRpcReturn 0 (ROk 1)] ++ al (fin_ok 0).
+
+Definition ex_aevents : list Jepsen.event :=
+  [mkEvent TWrite RInvoked 1000 1; mkEvent TWrite RFailed 1000 0; mkEvent TRead RInvoked 0 0;
+   mkEvent TRead RCompleted 0 nilv; mkEvent TRead RInvoked 0 0; mkEvent TRead RCompleted 0 1].
+
+Example ex_arun : option_map (fun a => events (a_s a)) (arun (ainit 2000) ex_alabels) = Some ex_aevents.
+Proof. vm_compute. reflexivity. Qed.
+
+Example ex_arun_accepted : check (parse_log (format_log ex_aevents)) = true.
+Proof. vm_compute. reflexivity. Qed.
+
+(* the atomic service cannot answer a read with a value the register did not hold ... *)
+Example ex_atomic_no_stale :
+  arun (ainit 2) (al [LPick 0 false; LRecInvoke; LSetBusy; LSpawn; LRpcStart 0] ++ [AEffect 0] ++ al [LRpcReturn 0 (ROk 5)]) = None.
+Proof. vm_compute. reflexivity. Qed.
+
+(* ... and the hypothesis matters: the recorder alone (any reply allowed) can record a history the
+   checker rejects: write 1 completed, then a read returning nil *)
+Definition ex_stale_labels : list label := opw 0 (ROk 0) ++ fin_ok 0 ++ opr 1 (ROk nilv) ++ fin_ok 1.
+Example ex_stale_rejected :
+  match run (init 2) ex_stale_labels with
+  | Some s => wf_events (events s) = true /\ check (parse_log (format_log (events s))) = false
+  | None => False
+  end.
+Proof. vm_compute. split; reflexivity. Qed.
